@@ -2,8 +2,8 @@
 
    Mirrors (src/zope/interface/interface.py)
      InterfaceBase.__call__, InterfaceBase.__adapt__, InterfaceClass._call_conform,
-     adapter_hooks, interfacemethod, InterfaceClass.__new__ (custom methods class and the
-     _CALL_CUSTOM_ADAPT flag)
+     adapter_hooks, interfacemethod, InterfaceClass.__new__ / __init_subclass__ (custom methods
+     class, plain subclasses, the _CALL_CUSTOM_ADAPT and _CALL_CUSTOM_PROVIDEDBY flags)
    and (src/zope/interface/_zope_interface_coptimizations.c) IB__call__, IB__adapt__.
 
    Everything the code calls out to (the object's __conform__, whether the object provides the
@@ -47,23 +47,32 @@ Inductive hook := HNone | HValue (v : nat) | HRaise (e : exn).
    super().__adapt__(obj) *)
 Inductive cbeh := CANone | CAValue (v : nat) | CARaise (e : exn) | CADelegate.
 
+(* an overridden providedBy (via @interfacemethod or in a plain InterfaceClass subclass): returns
+   True / False / raises e / returns super().providedBy(obj) *)
+Inductive pbeh := PBTrue | PBFalse | PBRaise (e : exn) | PBDelegate.
+
 Record obj := mkObj {
   conf : conform;
-  provides : bool;            (* I.providedBy(obj) *)
+  provides : bool;            (* Specification.providedBy(I, obj), the built-in provided-check *)
   hooks : list hook;          (* contents of adapter_hooks, in list order *)
   alternate : option nat      (* second argument, if given (0 stands for Python None) *)
 }.
 
-(* One interface definition of an inheritance chain `class I_k(I_{k-1})`, root first: does its
-   body define __adapt__ with @interfacemethod, does it define another @interfacemethod. *)
-Record lvl := mkLvl { l_adapt : option cbeh; l_other : bool }.
+(* One interface definition of an inheritance chain, root first.
+     l_plain = false:  `class I_k(I_{k-1}): ...` whose body may define __adapt__, providedBy and/or
+                       another method with @interfacemethod
+     l_plain = true:   `class IC_k(type(I_{k-1})): ...` a plain subclass of the interface class
+                       so far (InterfaceClass at the root) that may define the same methods, then
+                       `I_k = IC_k('I_k', (I_{k-1},), {})` *)
+Record lvl := mkLvl { l_adapt : option cbeh; l_prov : option pbeh; l_other : bool; l_plain : bool }.
 
 (* ------------------------------------------------------------------ observations (outputs) *)
 
 Inductive ev :=
 | EvGetConform            (* obj.__conform__ was read *)
 | EvCallConform           (* conform(I) was called *)
-| EvProvided              (* providedBy(obj) was computed *)
+| EvProvided              (* the built-in provided-check ran (obj.__providedBy__ was read) *)
+| EvCustomProv (level : nat) (* the providedBy override defined at chain level [level] was called *)
 | EvHook (i : nat)        (* adapter_hooks[i](I, obj) was called *)
 | EvCustom (level : nat). (* the custom __adapt__ defined at chain level [level] was called *)
 
@@ -150,10 +159,46 @@ Fixpoint run_hooks (i : nat) (hs : list hook) : list ev * res (option value) :=
       end
   end.
 
-(* InterfaceBase.__adapt__ *)
-Definition py_default_adapt (o : obj) : list ev * res (option value) :=
-  if provides o then ([EvProvided], Ok (Some VObj))
-  else let (lg, r) := run_hooks 0 (hooks o) in (EvProvided :: lg, r).
+(* The class of an interface (built by InterfaceClass.__new__ / __init_subclass__):
+     k_flag_own   '_CALL_CUSTOM_ADAPT' in type(I).__dict__
+     k_flag_mro   getattr(type(I), '_CALL_CUSTOM_ADAPT', False)
+     k_adapt      the custom __adapt__ definitions on the MRO of type(I), nearest first
+     k_pflag_own  '_CALL_CUSTOM_PROVIDEDBY' in type(I).__dict__
+     k_prov       the providedBy overrides on the MRO of type(I), nearest first *)
+Record kls := mkKls {
+  k_flag_own : bool; k_flag_mro : bool; k_adapt : list (nat * cbeh);
+  k_pflag_own : bool; k_prov : list (nat * pbeh)
+}.
+
+(* InterfaceClass itself *)
+Definition base_kls : kls := mkKls false false [] false [].
+
+(* `self.providedBy(obj)` resolved along the MRO of type(self): the overrides, nearest first, and
+   below them Specification.providedBy, the built-in check.  PBDelegate is
+   `return super().providedBy(obj)`. *)
+Fixpoint prov_mro (defs : list (nat * pbeh)) (o : obj) : list ev * res bool :=
+  match defs with
+  | [] => ([EvProvided], Ok (provides o))
+  | (i, b) :: rest =>
+      match b with
+      | PBTrue => ([EvCustomProv i], Ok true)
+      | PBFalse => ([EvCustomProv i], Ok false)
+      | PBRaise e => ([EvCustomProv i], Raise (User e))
+      | PBDelegate => let (lg, r) := prov_mro rest o in (EvCustomProv i :: lg, r)
+      end
+  end.
+
+(* InterfaceBase.__adapt__:
+     if self.providedBy(obj): return obj
+     for hook in adapter_hooks: ...
+     return None *)
+Definition py_default_adapt (k : kls) (o : obj) : list ev * res (option value) :=
+  let (lp, rp) := prov_mro (k_prov k) o in
+  match rp with
+  | Raise r => (lp, Raise r)
+  | Ok true => (lp, Ok (Some VObj))
+  | Ok false => let (lg, r) := run_hooks 0 (hooks o) in (lp ++ lg, r)
+  end.
 
 (* `self.__adapt__(obj)` resolved along the MRO of type(self): [defs] lists the custom
    definitions, nearest first, each with the chain level that defined it; below them sits
@@ -171,43 +216,48 @@ Fixpoint adapt_mro (base : obj -> list ev * res (option value)) (defs : list (na
       end
   end.
 
-(* The class of an interface (an instance of the metaclass machinery of InterfaceClass.__new__):
-     k_flag_own   '_CALL_CUSTOM_ADAPT' in type(I).__dict__
-     k_flag_mro   getattr(type(I), '_CALL_CUSTOM_ADAPT', False)
-     k_adapt      the custom __adapt__ definitions on the MRO of type(I), nearest first *)
-Record kls := mkKls { k_flag_own : bool; k_flag_mro : bool; k_adapt : list (nat * cbeh) }.
+Definition is_some {A} (x : option A) : bool := match x with Some _ => true | None => false end.
+Definition is_nil {A} (l : list A) : bool := match l with [] => true | _ => false end.
 
-(* InterfaceClass itself *)
-Definition base_kls : kls := mkKls false false [].
+Definition has_methods (l : lvl) : bool := is_some (l_adapt l) || is_some (l_prov l) || l_other l.
 
-Definition has_methods (l : lvl) : bool :=
-  match l_adapt l with Some _ => true | None => l_other l end.
-
-(* InterfaceClass.__new__(cls, name, bases, attrs) for the definition [l] at chain level [i],
-   where [cls] is the class of the single base interface.
+(* A new interface class for the definition [l] at chain level [i]; [cls] is the class of the base
+   interface.  A class is created when the level is a plain subclass, or when the interface body
+   has @interfacemethods (InterfaceClass.__new__):
      needs_custom_class = attrs.pop(INTERFACE_METHODS, None)
      if needs_custom_class:
          if '__adapt__' in needs_custom_class or getattr(cls, '_CALL_CUSTOM_ADAPT', False):
              needs_custom_class['_CALL_CUSTOM_ADAPT'] = 1
          cls = type(cls)(name + "<WithCustomMethods>", (cls,)..., needs_custom_class)
-   [propagate = false] is the logic before the fix (only the first disjunct). *)
-Definition new_kls (propagate : bool) (i : nat) (cls : kls) (l : lvl) : kls :=
-  if has_methods l then
-    let flag := match l_adapt l with Some _ => true | None => false end
-                || (propagate && k_flag_mro cls) in
-    mkKls flag (flag || k_flag_mro cls)
-          (match l_adapt l with Some b => (i, b) :: k_adapt cls | None => k_adapt cls end)
+   and on every class creation InterfaceClass.__init_subclass__ runs:
+     if cls.__adapt__ is not InterfaceBase.__adapt__: cls._CALL_CUSTOM_ADAPT = 1
+     if cls.providedBy is not Specification.providedBy: cls._CALL_CUSTOM_PROVIDEDBY = 1
+   [propagate = false]: __new__ before the fix f460281 (only the first disjunct);
+   [isc = false]: no __init_subclass__ (before a1711b6 / 145bd4d). *)
+Definition new_kls_gen (propagate isc : bool) (i : nat) (cls : kls) (l : lvl) : kls :=
+  if l_plain l || has_methods l then
+    let adapt' := match l_adapt l with Some b => (i, b) :: k_adapt cls | None => k_adapt cls end in
+    let prov' := match l_prov l with Some b => (i, b) :: k_prov cls | None => k_prov cls end in
+    let new_flag := negb (l_plain l) && (is_some (l_adapt l) || (propagate && k_flag_mro cls)) in
+    let flag := new_flag || (isc && negb (is_nil adapt')) in
+    mkKls flag (flag || k_flag_mro cls) adapt' (isc && negb (is_nil prov')) prov'
   else cls.
 
-Fixpoint build_kls (propagate : bool) (i : nat) (cls : kls) (chain : list lvl) : kls :=
+Fixpoint build_kls_gen (propagate isc : bool) (i : nat) (cls : kls) (chain : list lvl) : kls :=
   match chain with
   | [] => cls
-  | l :: t => build_kls propagate (S i) (new_kls propagate i cls l) t
+  | l :: t => build_kls_gen propagate isc (S i) (new_kls_gen propagate isc i cls l) t
   end.
 
 (* the class of the last interface of the chain (the one that is called) *)
+Definition type_of_chain_gen (propagate isc : bool) (chain : list lvl) : kls :=
+  build_kls_gen propagate isc 0 base_kls chain.
+
+(* the current source: __init_subclass__ is there *)
+Definition new_kls (propagate : bool) := new_kls_gen propagate true.
+Definition build_kls (propagate : bool) := build_kls_gen propagate true.
 Definition type_of_chain (propagate : bool) (chain : list lvl) : kls :=
-  build_kls propagate 0 base_kls chain.
+  type_of_chain_gen propagate true chain.
 
 (* tail of __call__ after self.__adapt__(obj) returned / raised *)
 Definition finish (o : obj) (lg : list ev) (r : res (option value)) : list ev * outcome :=
@@ -225,7 +275,7 @@ Definition finish (o : obj) (lg : list ev) (r : res (option value)) : list ev * 
 (* I.__adapt__(obj) called directly (same attribute lookup in both implementations; the
    bottom of the MRO is the implementation's own InterfaceBase.__adapt__) *)
 Definition py_adapt (k : kls) (o : obj) : list ev * res (option value) :=
-  adapt_mro py_default_adapt (k_adapt k) o.
+  adapt_mro (py_default_adapt k) (k_adapt k) o.
 
 (* InterfaceBase.__call__ *)
 Definition py_call (k : kls) (o : obj) : list ev * outcome :=
@@ -270,12 +320,23 @@ Fixpoint c_hook_loop (n i : nat) (hs : list hook) : list ev * res (option value)
       end
   end.
 
-Definition c_default_adapt (o : obj) : list ev * res (option value) :=
-  if provides o then ([EvProvided], Ok (Some VObj))
-  else let (lg, r) := c_hook_loop (length (hooks o)) 0 (hooks o) in (EvProvided :: lg, r).
+(* IB__adapt__:
+     if (PyDict_GetItemString(Py_TYPE(self)->tp_dict, "_CALL_CUSTOM_PROVIDEDBY"))
+         implements = PyObject_IsTrue(self.providedBy(obj))
+     else  implements = <inlined check: self in providedBy(obj)._implied>
+     if (implements) return obj;  ... hooks ... *)
+Definition c_default_adapt (k : kls) (o : obj) : list ev * res (option value) :=
+  let (lp, rp) := if k_pflag_own k then prov_mro (k_prov k) o
+                  else ([EvProvided], Ok (provides o)) in
+  match rp with
+  | Raise r => (lp, Raise r)
+  | Ok true => (lp, Ok (Some VObj))
+  | Ok false =>
+      let (lg, r) := c_hook_loop (length (hooks o)) 0 (hooks o) in (lp ++ lg, r)
+  end.
 
 Definition c_adapt (k : kls) (o : obj) : list ev * res (option value) :=
-  adapt_mro c_default_adapt (k_adapt k) o.
+  adapt_mro (c_default_adapt k) (k_adapt k) o.
 
 (* IB__call__ *)
 Definition c_call (k : kls) (o : obj) : list ev * outcome :=
@@ -285,11 +346,11 @@ Definition c_call (k : kls) (o : obj) : list ev * outcome :=
   match getattr_conform (conf o) with
   | Raise r =>
       if is_attribute_error r then
-        let (lg, a) := if k_flag_own k then c_adapt k o else c_default_adapt o in
+        let (lg, a) := if k_flag_own k then c_adapt k o else c_default_adapt k o in
         finish o (EvGetConform :: lg) a
       else ([EvGetConform], RaiseE r)
   | Ok None =>
-      let (lg, a) := if k_flag_own k then c_adapt k o else c_default_adapt o in
+      let (lg, a) := if k_flag_own k then c_adapt k o else c_default_adapt k o in
       finish o (EvGetConform :: lg) a
   | Ok (Some _) =>
       (* adapter = PyObject_CallMethodObjArgs(self, str_call_conform, conform, NULL);
@@ -301,7 +362,7 @@ Definition c_call (k : kls) (o : obj) : list ev * outcome :=
           (* if (PyDict_GetItemString(self->ob_type->tp_dict, "_CALL_CUSTOM_ADAPT"))
                  adapter = PyObject_CallMethodObjArgs(self, str__adapt__, obj, NULL);
              else adapter = IB__adapt__(self, obj); *)
-          let (lg, a) := if k_flag_own k then c_adapt k o else c_default_adapt o in
+          let (lg, a) := if k_flag_own k then c_adapt k o else c_default_adapt k o in
           finish o (EvGetConform :: EvCallConform :: lg) a
       end
   end.
@@ -326,6 +387,7 @@ Definition ev_eqb (a b : ev) : bool :=
   | EvGetConform, EvGetConform | EvCallConform, EvCallConform | EvProvided, EvProvided => true
   | EvHook i, EvHook j => Nat.eqb i j
   | EvCustom i, EvCustom j => Nat.eqb i j
+  | EvCustomProv i, EvCustomProv j => Nat.eqb i j
   | _, _ => false
   end.
 
